@@ -34,18 +34,20 @@ LEAF_RUST = {"C": "C", "N": "N", "Str": "str", "Sl": "[C]"}
 
 
 # ---------------------------------------------------------------- types
-def rust_ty(t, named=False, param=False):
+def rust_ty(t, named=False, param=False, lt=False):
     """named: borrows of self are spelled with the receiver's NAMED lifetime (`fn f<'s>(&'s self) -> .. &'s T ..`) instead of
     the elided one; for the macro's analysis both are the same borrow of self (output.rs analyze_lifetime), model: LtElided"""
     k = t[0]
     if k == "own": return t[1]
-    if k == "ref": return (("&'s " if named else "&") if t[1] == "e" else ("&'a " if param else "&'static ")) + LEAF_RUST[t[2]]
-    if k == "opt": return f"Option<{rust_ty(t[1], named, param)}>"
-    if k == "vec": return f"Vec<{rust_ty(t[1], named, param)}>"
-    if k == "poll": return f"Poll<{rust_ty(t[1], named, param)}>"
-    if k == "res": return f"Result<{rust_ty(t[1], named, param)}, {rust_ty(t[2], named, param)}>"
+    if k == "ref":
+        leaf = "W<'_>" if lt and t[1] == "e" and t[2] == "C" else LEAF_RUST[t[2]]
+        return (("&'s " if named else "&") if t[1] == "e" else ("&'a " if param else "&'static ")) + leaf
+    if k == "opt": return f"Option<{rust_ty(t[1], named, param, lt)}>"
+    if k == "vec": return f"Vec<{rust_ty(t[1], named, param, lt)}>"
+    if k == "poll": return f"Poll<{rust_ty(t[1], named, param, lt)}>"
+    if k == "res": return f"Result<{rust_ty(t[1], named, param, lt)}, {rust_ty(t[2], named, param, lt)}>"
     if k == "tup":
-        return "(" + ", ".join(rust_ty(x, named, param) for x in t[1]) + ("," if len(t[1]) == 1 else "") + ")"
+        return "(" + ", ".join(rust_ty(x, named, param, lt) for x in t[1]) + ("," if len(t[1]) == 1 else "") + ")"
     raise ValueError(t)
 
 
@@ -60,6 +62,24 @@ def sig_of(rust):
 def has_elided_ref(t):
     return (t[0] == "ref" and t[1] == "e") or any(has_elided_ref(x) for x in t[1:] if isinstance(x, tuple)) or \
         (t[0] == "tup" and any(has_elided_ref(x) for x in t[1]))
+
+
+def leaves_of(t):
+    if t[0] in ("own", "ref"): return [t]
+    if t[0] == "tup": return [l for x in t[1] for l in leaves_of(x)]
+    return [l for x in t[1:] if isinstance(x, tuple) for l in leaves_of(x)]
+
+
+def lt_variants(infos, limit):
+    """for accepted types in which the cloneable leaf C occurs only behind elided references: the same type with `&W<'_>` in its place -
+    a leaf type that carries a lifetime parameter of its own (anonymous `'_` inside a path type).  The borrow is still a borrow of self."""
+    out = []
+    for i in infos:
+        ls = leaves_of(i["ty"])
+        if i["accept"] and not i.get("named") and not i.get("param") and any(l == ("ref", "e", "C") for l in ls) and \
+                not any(l in (("own", "C"), ("ref", "s", "C")) or l[-1] == "Sl" for l in ls) and len(out) < limit:
+            out.append(dict(i, rust=rust_ty(i["ty"], lt=True), lt=True))
+    return out
 
 
 def param_variants(infos, limit):
@@ -441,7 +461,13 @@ def analyse_types(types):
 # ---------------------------------------------------------------- Rust side
 HDR = ("#![allow(dead_code, unused_imports)]\nuse unimock::*;\nuse std::task::Poll;\n"
        "#[derive(Clone, Debug, PartialEq, Eq)] pub struct C(pub u32);\n#[derive(Debug, PartialEq, Eq)] pub struct N(pub u32);\n"
-       "pub type Str = String;\npub type Sl = Vec<C>;\npub static PARAM: C = C(0);\n")
+       "pub type Str = String;\npub type Sl = Vec<C>;\npub static PARAM: C = C(0);\n"
+       "#[derive(Clone, Debug, PartialEq, Eq)] pub struct W<'a>(pub u32, pub std::marker::PhantomData<&'a ()>);\n")
+
+
+def rust_in(rust, in_ty):
+    """the input type as Rust spells it: the lifetime-carrying leaf of the `&W<'_>` variants is W<'static> there (the model says C)"""
+    return re.sub(r"\bC\b", "W<'static>", in_ty) if "W<'_>" in rust else in_ty
 
 
 def write_gen_rs(infos):
@@ -454,7 +480,7 @@ def write_gen_rs(infos):
                                               f"let u = Unimock::new(M{k}::f.{chain.replace('matching!()', 'matching!(_)') if par else chain}); "
                                               f"crate::request!(out, \"{tag}\", {n}, u, T{k}{', &PARAM' if par else ''}); }}")
         body = [f"#[unimock(api = M{k})]", f"pub trait T{k} {{ {sig_of(inf['rust'])}; }}",
-                f"pub fn run{k}(toks: &[String], out: &mut Vec<String>) {{", f"    type In = {inf['in']};",
+                f"pub fn run{k}(toks: &[String], out: &mut Vec<String>) {{", f"    type In = {rust_in(inf['rust'], inf['in'])};",
                 f"    if toks.first().map(|s| s.as_str()) == Some(\"KIND\") {{ out.push(format!(\"K {{}}\", std::any::type_name::<<M{k}::f as MockFn>::OutputKind>())); return; }}",
                 blk("S", 3, "some_call(matching!()).returns(v)"), blk("O", 1, "next_call(matching!()).returns(v)")]
         if inf["multi"]:
@@ -507,11 +533,12 @@ def probe_src(rust, in_ty, chain="some_call(matching!()).returns(v)"):
     if "&'a " in rust:
         chain = chain.replace("matching!()", "matching!(_)")
     return (HDR + f"#[unimock(api = M)]\npub trait T {{ {sig_of(rust)}; }}\n"
-            f"pub fn p(v: {in_ty}) {{ let _ = Unimock::new(M::f.{chain}); }}\n")
+            f"pub fn p(v: {rust_in(rust, in_ty)}) {{ let _ = Unimock::new(M::f.{chain}); }}\n")
 
 
 def norm_kind(s):
     s = re.sub(r"\b(?:[a-z_][a-z0-9_]*::)+", "", s)
+    s = re.sub(r"\bW<'[a-z_]+>", "C", s)      # the lifetime-carrying leaf is the model's C
     return s.replace("'static ", "").replace(" ", "")
 
 
@@ -561,7 +588,8 @@ def run(tier, seed):
     obligations = C.proof_obligations("C17", MODULE, THEOREMS)
     types = gen_types(rng, tier)
     infos = analyse_types(types)
-    infos += named_variants(infos, 40 if tier == "quick" else 400) + param_variants(infos, 25 if tier == "quick" else 250)
+    infos += named_variants(infos, 40 if tier == "quick" else 400) + param_variants(infos, 25 if tier == "quick" else 250) \
+        + lt_variants(infos, 25 if tier == "quick" else 250)
     binary, acc, mism = build_accepted(infos)
     # acceptance boundary: what the model rejects must not compile; no multi-use path => each_call().returns must not compile
     rej = [i for i in infos if not i["accept"]]
